@@ -321,7 +321,13 @@ def check(pid, tier):
             else:
                 violations.append({"source": "bounded", **v})
     p_fail_records = []
+    not_attempted = [o for o in failed if o.backend == "not-attempted"]
+    if not_attempted:
+        lines.append(f"NOTE: {len(not_attempted)} further obligation(s) were not attempted beyond the short solver rounds once a failure was confirmed "
+                     f"(undecided, not reported as violations): e.g. {sorted({o.coarse for o in not_attempted})[:3]}")
     for o in failed:
+        if o.backend == "not-attempted":
+            continue
         k = is_known(o.coarse, "")
         if k:
             known_hit.setdefault(k["id"], []).append({"key": o.coarse})
